@@ -105,7 +105,7 @@ def b_interleave(ch):
 
 OTHERS = [('c01', 'p2-mixed-k2', 0), ('c01', 'chain', 2), ('c05', 'trees', 2), ('c06', 'shapes', 2),
           ('c06', 'arrays-2d', 0), ('c07', 'hex', 2), ('c09', 'level0', 2), ('c09', 'like', None),
-          ('c13', 'stress', None), ('c15', 'like1', 3), ('c15', 'like2', 2), ('c16', 'flags', None)]
+          ('c13', 'stress', None), ('c15', 'like1', 3), ('c15', 'like2', 2), ('c16', 'flags', 1)]
 
 _foreign = {}
 
